@@ -518,6 +518,12 @@ def build_unit(tmpl_path: str, repo: str):
             i += 1
             continue
         d = st[4:].strip()
+        if d.startswith('include '):
+            inc = os.path.join(os.path.dirname(tmpl_path), d.split(None, 1)[1].strip())
+            il = open(inc).read().split('\n')
+            tl[i:i + 1] = il
+            n = len(tl)
+            continue
         if d.startswith('unit '):
             meta['unit'] = d.split()[1]
         elif d.startswith('property '):
